@@ -1,6 +1,8 @@
 package master
 
 import (
+	"github.com/lindb/common/pkg/logger"
+
 	"github.com/lindb/lindb/metrics"
 	"github.com/lindb/lindb/models"
 )
@@ -42,7 +44,8 @@ func (c *verifCluster) placementUnchanged(label string) {
 }
 
 func verifStateManager() *stateManager {
-	return &stateManager{elector: newReplicaLeaderElector(), shardLeaderStatistics: metrics.NewShardLeaderStatistics()}
+	return &stateManager{elector: newReplicaLeaderElector(), shardLeaderStatistics: metrics.NewShardLeaderStatistics(),
+		logger: logger.GetLogger("Master", "StateManager")} // a real logger: changed code may log where it did not before
 }
 
 // verifInvariant: a shard is online exactly when one of its replicas is alive, and the leader of
